@@ -1250,6 +1250,39 @@ def check_bounded_noise(ck, haar, n_cases):
         if len(tap.calls) != len(LEVELS):
             ck.tie_break('haarSeg ran %d levels, the theorems speak about %d' % (len(tap.calls), len(LEVELS)), case)
             continue
+        # the fallback regime of FDRThres (C11_noise_*_fallback): no p-value passes at any level with two or more peaks
+        pv, ab, _, _ = fdr_oracles(tap.calls)
+        nopass = [len(x) < 2 or not bool((np.array(p) <= (np.arange(1, len(x) + 1) / len(x)) * qq).any())
+                  for (x, qq, _, _), p in zip(tap.calls, pv)]
+        fb = stats.setdefault('fallback_theorems', {'step_regime_holds': 0, 'step_found_at_t': 0, 'step_lost_no_level_absorbs': 0,
+                                                    'step_a_p_value_passes': 0, 'flat_regime_holds': 0, 'flat_outside_regime': 0})
+        if c['kind'] == 'flat':
+            reg = all(len(x) == 0 or (len(x) >= 2 and np_ and not a_) for (x, _, _, _), np_, a_ in zip(tap.calls, nopass, ab))
+            if reg:
+                fb['flat_regime_holds'] += 1
+                if st != [0] or abs(mean[0] - c['clean'][0]) > c['eps'] + 1e-9:
+                    ck.violation('bounded noise, flat profile: no p-value passes and the 1e-16 fallback is not absorbed at any level, yet '
+                                 'haarSeg does not report one segment with mean within eps of the level', case,
+                                 code={'start': st, 'mean': mean}, expected={'start': [0], 'mean': c['clean'][0]},
+                                 clause='C11_noise_flat_fallback')
+                    continue
+            else:
+                fb['flat_outside_regime'] += 1
+        elif wt is None and 32 <= t <= n - 32:
+            if all(nopass):
+                fb['step_regime_holds'] += 1
+                found = any(len(x) < 2 or a_ for (x, _, _, _), a_ in zip(tap.calls, ab))
+                fb['step_found_at_t' if found else 'step_lost_no_level_absorbs'] += 1
+                exp_st = [0, t] if found else [0]
+                bad_means = found and len(mean) == 2 and (abs(mean[0] - c['a']) > c['eps'] + 1e-9 or abs(mean[1] - c['b']) > c['eps'] + 1e-9)
+                if st != exp_st or bad_means:
+                    ck.violation('bounded noise (eps %.6g < D/4, D %.6g), FDR fallback regime (no passing p-value at any level): haarSeg '
+                                 'must report %s (a level absorbs the 1e-16 or has t as its only peak: %s)'
+                                 % (c['eps'], c['D'], 'exactly the breakpoint t=%d with means within eps' % t if found else 'no breakpoint', found),
+                                 case, code={'start': st, 'mean': mean}, expected={'start': exp_st}, clause='C11_noise_step_seg_fallback')
+                    continue
+            else:
+                fb['step_a_p_value_passes'] += 1
         if c['kind'] == 'flat':
             hyp = all(len(x) == 0 or T > bnd + 1e-9 for (x, _, _, T), bnd in zip(tap.calls, bounds))
             if not hyp:
